@@ -64,7 +64,7 @@ def one_case(ctx, index, rng: random.Random):
     data, scale, off, dkind = gen_data(rng, big=not ctx.quick)
     mn, mx = float(data.min()), float(data.max())
     spec = rng.choice(["int", "int", "numpy", "fixed_width", "fixed_width", "pretty", "pretty", "integer", "quantile", "exponential",
-                       "edges", "gapped", "bincount", "bincount", "none", "int_range", "fixed_width_range", "bincount_range", "pretty_range"])
+                       "edges", "gapped", "bincount", "bincount", "none", "int_range", "fixed_width_range", "bincount_range", "pretty_range", "astropy"])
     if dkind == "ulps":
         # a range below the resolution of the data is only meaningful for the numpy-style rules (known finding D16)
         spec = rng.choice(["int", "numpy", "none"])
@@ -146,6 +146,15 @@ def one_case(ctx, index, rng: random.Random):
         bins_arg = rng.choice(["sturges", "sqrt", "rice", "doane"])
         if spec == "bincount_range":
             kw["range"] = (rng_lo, rng_hi)
+    elif spec == "astropy":
+        # the astropy-backed rules (blocks / knuth / scott / freedman): no closed-form rule here, but the result must be a
+        # well-formed binning that covers its data
+        bins_arg = rng.choice(["blocks", "knuth", "scott", "freedman"])
+        if data.size > 120:
+            data = data[:120]
+        if data.size < 5:
+            data = np.concatenate([data, data[0] + scale * np.arange(1, 6)])
+        mn, mx = float(data.min()), float(data.max())
     else:
         bins_arg = None
     desc["kw"] = {k: (list(v) if isinstance(v, (tuple, list)) else v) for k, v in kw.items()}
@@ -176,6 +185,10 @@ def one_case(ctx, index, rng: random.Random):
             mech = "numpy_binning.degenerate_range"
     if spec == "exponential" and (math.log10(mx) - math.log10(mn)) / kw["bin_count"] < 1e-13 * max(1.0, abs(math.log10(mx))):
         mech = "exponential.tiny_relative_range"
+    if raised is not None and spec == "astropy":
+        rec.skip("C07.rule", "astropy_rule_refused")  # these rules may refuse small / degenerate samples
+        rec.case(desc, False, cls="astropy/refused")
+        return
     if raised is not None:
         rec.mon("C07.rule")
         rec.fail(monitor="C07.rule", op=f"{via}/{spec}", symptom=f"valid binning specification refused: {type(raised).__name__}", diff=["raised"], mechanism=mech,
@@ -308,6 +321,12 @@ def check_rule(rec, b, data, spec, bins_arg, kw, desc, mech):
                 fail("exponential bins do not cover their data (up to rounding)", ["coverage"], min=mn, max=mx, first=e[0], last=e[-1])
             if len(bins) != kw["bin_count"]:
                 fail("exponential bin count differs from the request", ["bin_count"], got=len(bins))
+    elif spec == "astropy":
+        tol = 1e-9 * (abs(mn) + abs(mx) + (mx - mn))
+        if not (bins[0, 0] <= mn + tol and mx - tol <= bins[-1, 1]):
+            fail("bins of an astropy-backed rule do not cover the data they were derived from", ["coverage"], min=mn, max=mx, first=bins[0], last=bins[-1])
+        if not cons:
+            fail("bins of an astropy-backed rule are not consecutive", ["bins"])
     elif spec in ("edges", "gapped"):
         want = np.asarray(bins_arg, dtype=float)
         if want.ndim == 1:
